@@ -71,6 +71,21 @@ def check_chem(case) -> Result:
     if not _same_comp_typed(back, exp):
         sig = 'C15/roundtrip/keys' if set(back) != set(exp) else 'C15/roundtrip/values-or-types'
         r.fail('parse(write(c)) == c without zero entries (keys, values, int/float type)', sig, got=back, **ctx)
+    # parsing is a pure function of the string: editing an earlier result (the library's own label helper edits parsed
+    # compositions in place) must not change what the same string parses to next time
+    if exp:
+        first = dict(back)
+        try:
+            pt.apply_isotope_mods_to_composition(s if sep == '' else dict(back), ['13C', '15N', 'D'])
+        except ValueError:
+            pass
+        back['Zz'] = 5
+        if first:
+            back.pop(next(iter(first)), None)
+        again = pt.parse_chem_formula(s, sep=sep)
+        if not _same_comp_typed(again, first):
+            r.fail('parsing the same string twice gives the same composition', 'C15/roundtrip/parse-result-shared-between-calls', first=first,
+                   second=again, **ctx)
     # mass of the string == mass of the composition == reference
     for mono in (True, False):
         try:
@@ -165,6 +180,23 @@ def tokenisations(s, limit=3):
     return out
 
 
+def greedy_reading(s):
+    """longest-name-first reading without backtracking; None when it gets stuck"""
+    names = sorted(_glycan_names(), key=len, reverse=True)
+    pos, out = 0, []
+    while pos < len(s):
+        for nm in names:
+            if s.startswith(nm, pos):
+                pos += len(nm)
+                cnt = _COUNT.match(s, pos).group(0)
+                pos += len(cnt)
+                out.append(nm)
+                break
+        else:
+            return None
+    return out
+
+
 def check_glycan(case) -> Result:
     import peptacular as pt
     r = Result()
@@ -182,10 +214,19 @@ def check_glycan(case) -> Result:
         try:
             back = pt.parse_glycan_formula(s)
         except ValueError as e:
-            r.fail('an unambiguous written glycan formula parses', 'C15/glycan/parse-raises', error=str(e)[:150], **ctx)
+            sig = 'C15/glycan/parse-raises'
+            if greedy_reading(s) != [nm for nm, _v in toks[0]]:
+                sig = 'C15/glycan/longest-name-first-reading-fails-on-unambiguous-formula'
+            r.fail('an unambiguous written glycan formula parses', sig, error=str(e)[:150], **ctx)
             back = None
         if back is not None and not _same_comp_typed(back, d):
             r.fail('parse(write(d)) == d for unambiguous glycan formulas', 'C15/glycan/roundtrip', got=back, **ctx)
+        if back is not None and d:
+            first = dict(back)
+            back['Zz'] = 1
+            again = pt.parse_glycan_formula(s)
+            if not _same_comp_typed(again, first):
+                r.fail('parsing the same glycan string twice gives the same result', 'C15/glycan/parse-result-shared-between-calls', **ctx)
     # separated form is always unambiguous
     if d:
         s_sep = pt.write_glycan_formula(d, sep=' ')
@@ -230,7 +271,10 @@ def check_glycan(case) -> Result:
             if abs(m1 - m2) > 1e-9 * (1 + abs(m2)):
                 r.fail('mass of the glycan string equals the mass of the dictionary', 'C15/glycan/mass-string', got=m1, expected=m2, **ctx)
         except ValueError as e:
-            r.fail('glycan mass of an unambiguous string', 'C15/glycan/mass-string-raises', error=str(e)[:150], **ctx)
+            sig = 'C15/glycan/mass-string-raises'
+            if greedy_reading(s) != [nm for nm, _v in toks[0]]:
+                sig = 'C15/glycan/longest-name-first-reading-fails-on-unambiguous-formula'
+            r.fail('glycan mass of an unambiguous string', sig, error=str(e)[:150], **ctx)
     return r
 
 
